@@ -183,7 +183,7 @@ def body(ctx):
             specs.append(dict(seed=ctx.seed + 100 + k, maxdata=rng.choice([4096, 262144]), rid='random', frag='whole',
                               ops=[dict(api='push', size=n, src='bytesio', path='/sdcard/re%d' % k, mtime=5, cb=cb), dict(api='shell', decode=False, cmd='after', chunks=[b'ok'.hex()])]))
             labels.append('callback=%s' % cb)
-    for cwd in ('inside', 'elsewhere'):
+    for cwd in ('inside', 'elsewhere', 'decoy'):
         for files in ([('a.txt', 10)], [('a.txt', 0), ('b.bin', 5000), ('c', 70000)], []):
             k += 1
             specs.append(dict(seed=ctx.seed + 200 + k, maxdata=4096, rid='plus', frag='whole',
